@@ -141,6 +141,10 @@ def strategy_transform(tier):
                 site = draw(st.sampled_from(cand))
                 fc_atom = ["fc", draw(gen.fc_key())]
                 left = draw(st.sampled_from([False, False, True]))
+                if draw(st.sampled_from(range(4))) == 0:
+                    # a bracketed composition of format constraints (what a package of them expands to), on the right
+                    fc_atom = [draw(st.sampled_from(["and", "or", "xor"])), [fc_atom, ["fc", draw(gen.fc_key())]]]
+                    left = False
                 t_ast = replace_at(ast, site, lambda x: ["then", [fc_atom, x] if left else [x, fc_atom]])
         if kind == "swap":
             cand = [p for p, n in all_sites if not ref.is_atom(n) and n[0] in ("and", "or", "xor")]
